@@ -29,6 +29,21 @@ ASSUMPTIONS = ["header['NAXIS2'] and the band tuple are Python ints",
 
 
 MUTANTS = [
+    ("reference row moved the wrong way", "AegeanTools/fits_tools.py",
+     "        header['CRPIX2'] -= row_min\n        return data, header\n\n    # Figure",
+     "        header['CRPIX2'] += row_min\n        return data, header\n\n    # Figure",
+     "C20-R9"),
+    ("band height announced as hi + lo", "AegeanTools/fits_tools.py",
+     "    # adjust the header to match the data shape\n"
+     "    header['NAXIS2'] = row_max-row_min\n    header['CRPIX2'] -= row_min\n"
+     "    return data, header\n",
+     "    # adjust the header to match the data shape\n"
+     "    header['NAXIS2'] = row_max+row_min\n    header['CRPIX2'] -= row_min\n"
+     "    return data, header\n", "C20-R9"),
+    ("first column dropped from 2-d bands", "AegeanTools/fits_tools.py",
+     "            data = a[hdu_index].section[row_min:row_max, 0:header['NAXIS1']]",
+     "            data = a[hdu_index].section[row_min:row_max, 1:header['NAXIS1']]",
+     "C20-R10"),
     ("band edges from a float rows-per-band", "AegeanTools/fits_tools.py",
      "    row_min = header['NAXIS2'] * band[0] // band[1]\n"
      "    row_max = header['NAXIS2'] * (band[0]+1) // band[1]\n",
@@ -126,9 +141,15 @@ def run(ctx):
         if isinstance(s, ast.Assign) and isinstance(s.targets[0], ast.Name) \
                 and s.targets[0].id in bounds:
             defs.setdefault(s.targets[0].id, []).append(s)
-    if any(len(defs.get(b, [])) != 1 for b in bounds):
-        raise AnalysisError("C20: boundary definitions not unique: %s" %
+    if any(len(defs.get(b, [])) < 1 for b in bounds) or any(
+            not any(st is d for st in fi.node.body)
+            for b in bounds for d in defs[b] if len(defs[b]) > 1):
+        # (several straight-line definitions are composed in order; a
+        # re-definition inside a branch is not understood)
+        raise AnalysisError("C20: boundary definitions not understood: %s" %
                             {k: len(v) for k, v in defs.items()})
+    for b in bounds:
+        defs[b].sort(key=lambda st: st.lineno)
     # ---------------------------------------------------------------- R1
     ctx.rule("C20-R1", "band boundaries are exact integer arithmetic; "
              "consecutive; first is 0 and last is NAXIS2")
@@ -137,11 +158,12 @@ def run(ctx):
     i = sp.Symbol("i", integer=True, nonnegative=True)
     exprs = {}
     for b in bounds:
-        d = defs[b][0]
+        d = defs[b][-1]           # the value the slices see
         v = d.value
         inexact = None
         from ..core import expand_locals
-        v = expand_locals(fi.node, v)
+        if len(defs[b]) == 1:
+            v = expand_locals(fi.node, v)
         for c in ast.walk(v):
             if isinstance(c, ast.Call) and norm(c.func) == "int" and c.args \
                     and any(isinstance(x, ast.BinOp) and
@@ -386,6 +408,8 @@ def run(ctx):
         ctx.check("C20-R4", fi, "returned data " + norm(d, 60), ok,
                   "the returned data is not the [%s:%s] row slice" % (lo, hi),
                   node=s)
+    r9_header_model(ctx, prog, fi)
+    r10_whole_rows(ctx, prog, fi)
     r5_planes(ctx, prog)
     r6_bscale(ctx, prog, fi)
     r7_fresh(ctx, prog)
@@ -449,6 +473,123 @@ def _sliced_by(fnode, e, lo, hi, depth=0):
         return bool(defs) and all(_sliced_by(fnode, d.value, lo, hi,
                                              depth + 1) for d in defs)
     return False
+
+
+def r9_header_model(ctx, prog, fi, rule="C20-R9"):
+    """the header returned with band i of n, as expressions in the original
+    header: NAXIS2 = hi - lo, CRPIX2 = CRPIX2 - lo, nothing else changed"""
+    import sympy as sp
+    from .. import headermodel as hm
+    ctx.rule(rule, "each band's header maps its pixels to the same sky "
+             "positions as the full image: load_image_band, interpreted "
+             "over a model header along every path, returns NAXIS2 = "
+             "floor(N(i+1)/n) - floor(N i/n), CRPIX2 = CRPIX2 - floor(N i/n) "
+             "and leaves every other keyword as it was")
+    mod = prog.modules[fi.module]
+    i = sp.Symbol("i", integer=True, nonnegative=True)
+    n = sp.Symbol("n", integer=True, positive=True)
+    keys = ["NAXIS", "NAXIS1", "NAXIS2", "CRPIX1", "CRPIX2", "CRVAL1",
+            "CRVAL2", "CDELT1", "CDELT2"]
+    h0 = {k: sp.Symbol("h_" + k, real=True) for k in keys}
+    h0["NAXIS2"] = sp.Symbol("N", integer=True, positive=True)
+    N = h0["NAXIS2"]
+    band = fi.params[1]
+    try:
+        outs = hm.Machine(prog, mod, ("header",), {}).outcomes(
+            fi, h0, {band: (i, n)})
+    except hm.GiveUp as e:
+        raise AnalysisError("%s: header effects of load_image_band: %s" %
+                            (rule, e))
+    good = [o for o in outs if isinstance(o[2], tuple) and len(o[2]) == 2
+            and o[2][0] != "raises"]
+    lo_ = sp.floor(N * i / n)
+    hi_ = sp.floor(N * (i + 1) / n)
+    want = dict(h0)
+    want["NAXIS2"] = hi_ - lo_
+    want["CRPIX2"] = h0["CRPIX2"] - lo_
+    nchk = 0
+    seen = set()
+    for o in good:
+        he = o[1]
+        sig = str(sorted((k, str(v)) for k, v in he.items()))
+        if sig in seen:
+            continue
+        seen.add(sig)
+        for k in keys:
+            nchk += 1
+            v = he.get(k)
+            ok = v is not None and v is not hm.OPAQUE and \
+                sp.simplify(sp.sympify(v) - want[k]) == 0
+            ctx.check(rule, fi, "returned header: %s = %s" % (k, v),
+                      bool(ok), "band %s of %s of an image with N rows must "
+                      "carry %s = %s; found %s: the band's pixels are mapped "
+                      "to the wrong sky positions / the wrong shape is "
+                      "announced" % (i, n, k, want[k], v), node=fi.node)
+    ctx.check(rule, fi, "%d successful path(s) of load_image_band "
+              "interpreted" % len(good), bool(good),
+              "no successful path", node=fi.node)
+    ctx.floor(rule, nchk, 9, "header keywords of the returned band")
+
+
+def r10_whole_rows(ctx, prog, fi, rule="C20-R10"):
+    """each band holds WHOLE rows of the right plane"""
+    from ..core import index_alternatives
+    ctx.rule(rule, "a band holds whole rows: every section read of "
+             "load_image_band takes all columns (0 / none .. NAXIS1 / none), "
+             "and an image with NAXIS = k is read with k - 2 leading plane "
+             "indices")
+    n = 0
+    for x in walk_no_nested(fi.node):
+        if not (isinstance(x, ast.Subscript) and
+                isinstance(x.value, ast.Attribute) and
+                x.value.attr in ("section", "data")):
+            continue
+        alts = index_alternatives(fi.node, x)
+        if alts is None:
+            continue
+        for els in alts:
+            if len(els) < 2 or not isinstance(els[-1], ast.Slice):
+                continue
+            n += 1
+            c = els[-1]
+            ok = (c.lower is None or norm(c.lower) == "0") and \
+                (c.upper is None or norm(c.upper).replace('"', "'") ==
+                 "header['NAXIS1']") and c.step is None
+            ctx.check(rule, fi, "all columns in " + norm(x, 60), ok,
+                      "the column slice %s drops columns: the band is not "
+                      "the corresponding rows of the image" %
+                      norm(c), node=x)
+    ctx.floor(rule, n, 3, "row-block reads")
+    # NAXIS dispatch
+    nd = 0
+    for st in walk_no_nested(fi.node):
+        if not (isinstance(st, ast.If) and isinstance(st.test, ast.Compare)
+                and len(st.test.ops) == 1 and
+                isinstance(st.test.ops[0], ast.Eq) and
+                isinstance(st.test.comparators[0], ast.Constant) and
+                isinstance(st.test.comparators[0].value, int) and
+                "naxis" in norm(st.test.left).lower()):
+            continue
+        k = st.test.comparators[0].value
+        lead = None
+        for b in st.body:
+            for y in ast.walk(b):
+                if isinstance(y, ast.Subscript) and \
+                        isinstance(y.value, ast.Attribute) and \
+                        y.value.attr == "section" and \
+                        isinstance(y.slice, ast.Tuple):
+                    lead = len(y.slice.elts) - 2
+            if lead is None and isinstance(b, ast.Assign) and \
+                    isinstance(b.value, ast.Tuple):
+                lead = len(b.value.elts)
+        if lead is None:
+            continue
+        nd += 1
+        ctx.check(rule, fi, "NAXIS == %d read with %d leading indices" %
+                  (k, lead), lead == k - 2,
+                  "an image with %d axes has %d axes in front of (rows, "
+                  "columns); the branch uses %d" % (k, k - 2, lead), node=st)
+    ctx.floor(rule, nd, 3, "NAXIS branches")
 
 
 def r5_planes(ctx, prog, rule="C20-R5"):
